@@ -173,7 +173,7 @@ def run_impl_sharded(script: str, payloads: list, *, shards: int | None = None,
 
 def dep_closure(rel: str) -> list[Path]:
     """Transitive .v dependencies (inside coq/) of coq/<rel>, via coqdep."""
-    files = sorted(str(p.relative_to(COQ)) for p in COQ.rglob("*.v") if not p.name.startswith("_dbg"))
+    files = sorted(str(p.relative_to(COQ)) for p in COQ.rglob("*.v") if not p.name.startswith("_"))
     p = sh(["coqdep", "-Q", ".", "Annet"] + files, cwd=COQ, timeout=120)
     deps: dict[str, list[str]] = {}
     for line in p.stdout.splitlines():
@@ -197,7 +197,7 @@ def dep_closure(rel: str) -> list[Path]:
 
 def hygiene(scope: Sequence[Path] | None = None) -> list[str]:
     bad = []
-    files = sorted(COQ.rglob("*.v")) if scope is None else list(scope)
+    files = sorted(p for p in COQ.rglob("*.v") if not p.name.startswith("_")) if scope is None else list(scope)
     for f in files:
         txt = f.read_text()
         # strip comments (innermost first, repeated for nesting)
